@@ -4,6 +4,7 @@ import (
 	"bytes"
 	"fmt"
 	"net/textproto"
+	"runtime"
 	"strings"
 	"time"
 
@@ -19,7 +20,7 @@ func init() {
 		Run:   runC09,
 		Level: "exploration",
 		Rule: "a run = a generated ammo file (1-6 requests with unique markers; uri, uripost, raw, http/json) + a provider 'headers' option list that overlaps the in-file and per-entry headers (same name in another case, Host) + gun options (ssl on/off with TLS over the simulated network, keep-alives on/off, shared client on/off, 1-5 instances, target given as address or host name); " +
-			"the real provider, real http gun, net/http transport and engine fire at a real net/http server inside the bubble over the simulated network (drawn latency and segmentation); every request received is compared with the reference (entry headers win over configured ones, Host from the ammo else from the configuration else the target's host) and the connections are counted; " +
+			"the real provider, the real http gun (three runs in five), http2 gun (HTTP/2 over TLS) or connect gun (through a CONNECT tunnel the target sets up; the CONNECT authority and count are checked), net/http transport and engine fire at a real net/http server inside the bubble over the simulated network (drawn latency and segmentation); every request received is compared with the reference (entry headers win over configured ones, Host from the ammo else from the configuration else the target's host) and the connections are counted; " +
 			"non-trivial = at least two instances shot concurrently or a configured header collided with an ammo header; distinct = distinct schedule-trace hash",
 		Components: map[string]string{
 			"components/providers/http": "real", "components/guns/http (BaseGun, client, transport config)": "real", "net/http client transport": "real (stdlib, un-yielded)", "core/engine": "real",
@@ -100,6 +101,15 @@ func runC09(r *R) {
 	}
 	ssl := w.Draw(3) == 0
 	keepAlive := w.Draw(3) != 0
+	// the gun: http, http2 (always over TLS, one multiplexed connection per client) or connect (the target is
+	// reached through a tunnel set up with a CONNECT request to the target address)
+	gunKind := []string{"http", "http", "http", "http2", "connect"}[w.Draw(5)]
+	switch gunKind {
+	case "http2":
+		ssl, keepAlive = true, true
+	case "connect":
+		ssl = false
+	}
 	shared := w.Draw(4) == 0
 	inst := 1 + w.Draw(5)
 	passes := 1 + w.Draw(2)
@@ -127,11 +137,12 @@ func runC09(r *R) {
 		}
 	}
 	total := n * passes
-	r.Sample(map[string]any{"format": format, "entries": n, "passes": passes, "config_headers": confHdr, "ssl": ssl, "keep_alive": keepAlive, "shared_client": shared, "instances": inst, "target": target, "latency": lat.String(), "chunk": chunk, "file": clipB(file)})
+	r.Sample(map[string]any{"format": format, "entries": n, "passes": passes, "config_headers": confHdr, "gun": gunKind, "ssl": ssl, "keep_alive": keepAlive, "shared_client": shared, "instances": inst, "target": target, "latency": lat.String(), "chunk": chunk, "file": clipB(file)})
 	if inst >= 2 || collide {
 		r.NonTrivial()
 	}
 	r.Note("format:" + format)
+	r.Note("gun:" + gunKind)
 	if collide {
 		r.Note("config-header-collides-with-ammo-header")
 	}
@@ -143,7 +154,7 @@ func runC09(r *R) {
 		}
 		ammo["headers"] = hs
 	}
-	gun := map[string]interface{}{"type": "http", "target": target, "ssl": ssl, "disable-keep-alives": !keepAlive}
+	gun := map[string]interface{}{"type": gunKind, "target": target, "ssl": ssl, "disable-keep-alives": !keepAlive}
 	if shared {
 		gun["shared-client"] = map[string]interface{}{"enabled": true, "client-number": 1 + w.Draw(2)}
 	}
@@ -160,8 +171,12 @@ func runC09(r *R) {
 			}
 		},
 		func(nw *simnet.Net) {
-			tgt = startHTTPTarget(nw, target, ssl, nil)
+			tgt = startHTTPTargetTLS(nw, target, ssl, tlsOpts{H2: gunKind == "http2"}, nil)
 		})
+	if gunKind == "http2" {
+		runtime.GC() // (pooled channels of x/net/http2 must not cross bubbles, see c19HTTP2)
+		runtime.GC()
+	}
 	switch res.Sim.Class {
 	case simrt.Crash:
 		r.Fail("CRASH/"+frameSig(res.Sim.Stack), "%s\n%s", res.Sim.Detail, res.Sim.Stack)
@@ -258,6 +273,10 @@ func runC09(r *R) {
 				r.Fail("header-missing/"+format, "entry %s arrived without header %s: %v (received: %s)", e.g.URI, k, v, hdrKey(s.Hdr, nil))
 				continue
 			}
+			if gunKind == "http2" && k == "Cookie" && cookieCrumbs(got) == cookieCrumbs(v) {
+				// HTTP/2 carries a Cookie header as separate crumbs (RFC 7540 8.1.2.5); the receiver joins them with "; "
+				continue
+			}
 			if strings.Join(got, "|") != strings.Join(v, "|") {
 				cls := "header-altered"
 				if _, inAmmo := e.g.Hdr[k]; inAmmo {
@@ -291,6 +310,18 @@ func runC09(r *R) {
 			r.Fail("dial-address", "a connection was dialled to %s, the configured target is %s", c.Addr, target)
 		}
 	}
+	if gunKind == "connect" {
+		cs := tgt.Connects()
+		for _, a := range cs {
+			if ca, _ := netResolve(res.Net, a); ca != ta {
+				r.Fail("connect-authority", "the tunnel was requested with CONNECT %s, the configured target is %s", a, target)
+				break
+			}
+		}
+		if len(cs) != len(conns) {
+			r.Fail("connect-count", "%d CONNECT requests for %d connections that carried requests", len(cs), len(conns))
+		}
+	}
 	switch {
 	case !keepAlive:
 		if len(conns) != total {
@@ -318,4 +349,15 @@ func netResolve(n *simnet.Net, addr string) (string, error) {
 	// the canonical "ip:port" of an address on the simulated network
 	c, err := n.Resolve(addr)
 	return c, err
+}
+
+// cookieCrumbs: the cookie pairs of a Cookie header, whatever the spacing after the semicolons.
+func cookieCrumbs(vals []string) string {
+	var out []string
+	for _, v := range vals {
+		for _, c := range strings.Split(v, ";") {
+			out = append(out, strings.TrimSpace(c))
+		}
+	}
+	return strings.Join(out, ";")
 }
